@@ -3,8 +3,15 @@ import IronCalc.Book.Sheets
 open IronCalc.Book IronCalc.RefTree
 namespace Driver
 
-/-- ASCII folding: the generators vary case only in ASCII letters -/
-def asciiFold : Fold := ⟨String.toUpper, String.toLower⟩
+/-- `char::to_uppercase` / `to_lowercase` on ASCII and the Latin-1 Supplement letters that map one-to-one
+    inside Latin-1 (U+00C0–U+00DE ↔ U+00E0–U+00FE, without × and ÷).  ß, ÿ and µ (whose upper case leaves
+    Latin-1) and everything above U+00FF are left unchanged: the generators do not emit cased letters
+    outside this fragment (stated in notes/C32.md). -/
+def latin1Up (c : Char) : Char :=
+  if 0xE0 ≤ c.toNat ∧ c.toNat ≤ 0xFE ∧ c.toNat ≠ 0xF7 then Char.ofNat (c.toNat - 32) else c.toUpper
+def latin1Low (c : Char) : Char :=
+  if 0xC0 ≤ c.toNat ∧ c.toNat ≤ 0xDE ∧ c.toNat ≠ 0xD7 then Char.ofNat (c.toNat + 32) else c.toLower
+def asciiFold : Fold := ⟨fun s => s.map latin1Up, fun s => s.map latin1Low⟩
 
 def optName (s : String) : Option (Option String) :=
   if s == "~" then some none else (hexDecode s).map some
